@@ -430,6 +430,9 @@ def run(tier):
         pproof.discharge(r, obls, replay=replay_batch(H), file=FILE, fn_of=lambda ob: 'get_batch')
         r.functions = [dict(file='hyruns.py', fn='get_batch', trusted=['numpy.arange', 'numpy.array_split'], nonterminating=[], cutloops=0, unrolled=0, terminating=1)]
         r.extra['paths_explored'] = npaths
+    except (engp.Unsupported, engp.PathLimit) as e:
+        # the code under analysis uses a construct the symbolic executor does not support (e.g. after a change of the code): undecided, not a crash
+        r.undecided.append('Engine P cannot execute the current code symbolically: %s' % (str(e)[:300],))
     except Exception:
         r.broken.append('C19 driver crashed: ' + traceback.format_exc()[-2500:])
     r.assumptions += ['numpy.arange / numpy.array_split: ASSUMED contract (sections of size n div N + 1 for the first n mod N sections, n div N after, contiguous, in order), cross-checked against the installed numpy for n < 120 (400 thorough)',
